@@ -25,6 +25,15 @@ def run(ctx):
     wf = [events.enc_case(events.stream(ctx.rng, wf=True), events.options(ctx.rng)) for _ in range(ctx.n(4000, 50000))]
     ill = exhaustive_illformed(ctx.n(4, 5))
     if len(ill) > 30000: ill = ill[:12000] + ctx.rng.sample(ill[12000:], 18000)
+    # fixed family: an open-ended first document (plain / keep-chomped block / empty root) followed by a document with directives of each kind -
+    # the "..." that must separate them is decided per kind of directive (version only, tags only, both)
+    oe = []
+    for root in (('SC', None, None, True, False, 'a', None), ('SC', None, None, True, False, 'a\n\n', '|'), ('SC', None, None, True, False, 'x y', '>'), ('SC', None, None, True, False, '', None)):
+        for ver, tags in (((1, 1), []), (None, [('!e!', 'tag:e.com,2000:')]), ((1, 1), [('!e!', 'tag:e.com,2000:')]), (None, [])):
+            for ex1 in (False, True):
+                evs = [('SS',), ('DS', ex1, None, []), root, ('DE', False), ('DS', True, ver, tags), ('SC', None, None, True, False, 'b', None), ('DE', False), ('SE',)]
+                oe.append(events.enc_case(evs, {}))
+    wf = oe + wf
     allc = [[c, 'py', True] for c in wf] + [[c, 'py', False] for c in cases + ill] + [[c, 'c', True] for c in wf[:len(wf) // 2]] + [[c, 'c', False] for c in ill[:3000]]
     corr.direct(ctx, 'c05', allc, describe=lambda c: dict(events=c[0], backend=c[1], wellformed=c[2]), label='emit_parse')
     ctx.partial = [dict(theorem='emit_total / emit_parse_structure / tag_elision_sound', missing='only the double-quoted scalar layer is a theorem; the rest is decided by the exact-text emit correspondence and the direct run')]
